@@ -97,6 +97,16 @@ CLAIMS = {
               "float32/int/F-order/strided/read-only inputs), aliasing, copies/deep copies, calls that raised, and "
               "(thorough) cold vs warm JIT cache are outside any Lean model and are exercised by random API histories "
               "compared bit-for-bit with fresh objects, in interpreter and JIT mode, with argument snapshots.")),
+    "C20": dict(
+        category="proof", design_ref="DESIGN.md §8 C20",
+        technique="Lean 4 theorems on the index maps of the mesh export (all shapes) + exact comparison of grid_to_meshio/ray_to_meshio output with the model through a stand-in meshio.Mesh",
+        text=("Proved for all shapes: the model's point and cell numbering (F order in 2D, C order over (x,y,z) in 3D) is a "
+              "bijection with nodes/cells, the node and cell data orders (ravel / transpose [1,2,0]) attach each datum to the "
+              "node/cell with the same number, each cell's vertex numbers are exactly the numbers of the corners of that "
+              "model cell, and ray line cells connect consecutive vertices of one ray. The running code is tied to the "
+              "model by exact equality of points (x, y, -z), connectivity, point data (traveltimes, reordered sign-flipped "
+              "gradients) and cell data on non-cubic shapes, unequal/decimal spacings, non-zero origins, several grids in "
+              "any argument order, and 1..5 rays.")),
 }
 
 WIP = "check not registered yet in this revision (model/theorems under construction); see DESIGN.md §8"
